@@ -96,7 +96,7 @@ def build_client(name, sources, variant, cxx=False, extra=(), libs=(), deps=()):
     if "asan" in variant:
         san = ["-fsanitize=address", "-fno-omit-frame-pointer"]
     cmd = [CXX if cxx else CC] + (["-std=gnu++17"] if cxx else ["-std=gnu11"]) + \
-        ["-g", "-O1", "-fblocks", "-D_GNU_SOURCE", "-DDISPATCH_VERIF=1", "-Wall", "-Wno-unused-function",
+        ["-g", "-O1", "-fblocks", "-rdynamic", "-D_GNU_SOURCE", "-DDISPATCH_VERIF=1", "-Wall", "-Wno-unused-function",
          "-I" + REPO, "-I" + d, "-I" + os.path.join(REPO, "private"), "-I" + os.path.join(REPO, "src", "BlocksRuntime"), "-I" + os.path.join(VERIF, "driver")] + \
         san + list(extra) + srcs + ["-o", out + ".tmp", "-L" + ldisp, "-L" + lblocks, "-ldispatch", "-lBlocksRuntime",
          "-Wl,-rpath," + ldisp, "-Wl,-rpath," + lblocks, "-lpthread"] + list(libs)
